@@ -29,16 +29,17 @@ LINK_REASONS = {"parent-link", "root-has-parent", "dangling-link"}
 # outputs that merely follow the parent links: implied by a link reason, not part of the signature
 DERIVED_FROM_LINKS = {"to_root", "level"}
 
+# (cfg, invariant TLC must report as violated, also run in the quick tier?)
 GUARDS = (
-    ("MC_TreeImpl_swapbug.cfg", "ParentConsistent"),
-    ("MC_TreeImpl_swapbug_roots.cfg", "RootsHaveNoParent"),
-    ("MC_TreeImpl_swapbug_dangling.cfg", "NoDangling"),
-    ("MC_TreeImpl_copyassignbug.cfg", "ParentConsistent"),
-    ("MC_TreeImpl_moveassignbug.cfg", "ParentConsistent"),
-    ("MC_TreeImpl_insertnoparent.cfg", "ParentConsistent"),
-    ("MC_TreeImpl_copynoreparent.cfg", "ParentConsistent"),
-    ("MC_TreeImpl_erasekeeps.cfg", "Refines"),
-    ("MC_TreeImpl_pushfrontret.cfg", "ReturnsAgree"),
+    ("MC_TreeImpl_swapbug.cfg", "ParentConsistent", True),
+    ("MC_TreeImpl_swapbug_roots.cfg", "RootsHaveNoParent", True),
+    ("MC_TreeImpl_swapbug_dangling.cfg", "NoDangling", True),
+    ("MC_TreeImpl_copyassignbug.cfg", "ParentConsistent", False),
+    ("MC_TreeImpl_moveassignbug.cfg", "ParentConsistent", False),
+    ("MC_TreeImpl_insertnoparent.cfg", "ParentConsistent", False),
+    ("MC_TreeImpl_copynoreparent.cfg", "ParentConsistent", False),
+    ("MC_TreeImpl_erasekeeps.cfg", "Refines", True),
+    ("MC_TreeImpl_pushfrontret.cfg", "ReturnsAgree", True),
 )
 
 
@@ -205,7 +206,7 @@ def run(ctx):
     vlib.tlc_mc(ctx, "Tree", "MC_Tree.cfg")
     r = vlib.tlc_mc(ctx, "TreeImpl", "MC_TreeImpl.cfg", coverage=thorough)
     if thorough:
-        zero = [k for k, (t, g) in r.coverage().items() if t == 0 and k in ("Init", "IInit", "IStep", "INext")]
+        zero = [k for k, (t, g) in r.coverage().items() if t == 0]
         if zero:
             raise vlib.Infra("coverage: actions never taken: %s" % zero)
         vlib.tlc_mc(ctx, "Tree", "MC_Tree_big.cfg", timeout=3000)
@@ -213,20 +214,23 @@ def run(ctx):
     # 2. vacuity guards: each invariant CAN fail - with a defect re-introduced into the transcription
     #    TLC must find a counterexample (SwapBug/CopyAssignBug/MoveAssignBug = the unrepaired code)
     def guard(g):
-        cfg, inv = g
+        cfg, inv, _ = g
         return cfg, inv, vlib.tlc("TreeImpl", cfg, workers=2, tag="TreeImpl_g")
-    for cfg, inv, r in vlib.parallel(guard, GUARDS, workers=5):
+    for cfg, inv, r in vlib.parallel(guard, [g for g in GUARDS if thorough or g[2]], workers=5):
         if inv not in r.invariant_violated:
             raise vlib.Infra("vacuity guard: %s did not violate %s" % (cfg, inv))
         ctx.extra.setdefault("vacuity_guards", []).append({"cfg": cfg, "violates": inv, "states": r.distinct})
-    # dropping `ret.parent_ = nullptr` from release()/pop_*() is unobservable: the model says so
-    r = vlib.tlc_mc(ctx, "TreeImpl", "MC_TreeImpl_releasenoclear.cfg", workers=4)
-    ctx.extra["equivalent_mutant_release_no_clear_states"] = r.distinct
+    if thorough:
+        # dropping `ret.parent_ = nullptr` from release()/pop_*() is unobservable: the model says so
+        r = vlib.tlc_mc(ctx, "TreeImpl", "MC_TreeImpl_releasenoclear.cfg", workers=4)
+        ctx.extra["equivalent_mutant_release_no_clear_states"] = r.distinct
     # 3. operation scripts, one per generated transition
     r = vlib.tlc_mc(ctx, "Tree", "MC_TreeScripts.cfg", workers=4)
     scripts = vlib._verdict_lines(r.out).get("SCRIPT", [])
     if len(scripts) < 1000:
         raise vlib.Infra("script emission produced only %d scripts" % len(scripts))
+    if not thorough:
+        scripts = scripts[ctx.seed % 2::2]
     r = vlib.tlc_mc(ctx, "TreeImpl", "MC_TreeImplScripts_big.cfg" if thorough else "MC_TreeImplScripts.cfg", workers=4,
                     timeout=3000)
     iscripts = vlib._verdict_lines(r.out).get("SCRIPT", [])
@@ -245,17 +249,17 @@ def run(ctx):
         count_classes(ctx, lines[:200000])
         ctx.sample({"tlc_script": scripts[len(scripts) // 2]})
     # 5. code -> spec
-    nh, ml = (12000, 40) if thorough else (1500, 40)
+    nh, ml = (12000, 40) if thorough else (1000, 40)
     tpath = os.path.join(ctx.workdir, "recorded.ndjson")
     rc, out = vlib.run_harness(binary, ["record", tpath, ctx.seed, nh, ml], timeout=3000)
     lines = judge_file(ctx, tpath, "random history", rc, out)
     ctx.traces_validated += nh
     if lines:
         count_classes(ctx, lines[:300000])
-        ev = json.loads(next(x for x in lines if '"op":"swap"' in x or '"op":"copy_assign"' in x) if any(
-            '"op":"swap"' in x or '"op":"copy_assign"' in x for x in lines[:2000]) else lines[1])
+        pick = next((x for x in lines[:5000] if '"op":"swap"' in x or '"op":"copy_assign"' in x), lines[1])
+        ev = json.loads(pick)
         ctx.sample({"recorded_event": {k: ev[k] for k in OP_FIELDS + ("ret", "some", "rb")},
-                    "dump_of_slot_%d" % max(1, ev.get("as", 1)): ev["slots"][max(1, ev.get("as", 1)) - 1]})
+                    "dump_of_first_live_slot": next((s for s in ev["slots"] if s["live"]), None)})
         # 6. the judge can fail: corrupted copies of an accepted history must be rejected
         if not ctx.violations and not ctx.known_hits:
             judge_vacuity(ctx, lines[:60000])
